@@ -340,6 +340,8 @@ FAMILIES_ALL = ['un', 'un', 'special', 'unp', 'bin', 'bin', 'binc', 'binc', 'pow
                 'buf', 'set', 'set', 'rmw', 'rmw', 'sum', 'prod', 'trace', 'dot', 'dot', 'dotc', 'outer', 'inv', 'solve', 'det',
                 'logdet', 'qr', 'chol', 'eigh', 'svd', 'lu', 'fft', 'tile', 'diag', 'symvec']
 FAMILIES_FWD_ONLY = ['unfwd', 'minmax', 'tri', 'abs', 'expm', 'svdfull']
+FAMILIES_POLY = ['un', 'bin', 'bin', 'binc', 'binc', 'pow', 'neg', 'get', 'get', 'T', 'reshape', 'buf', 'set', 'rmw', 'sum', 'prod',
+                 'trace', 'dot', 'dot', 'dotc', 'outer', 'tile', 'diag']
 
 
 class GenState:
@@ -474,7 +476,7 @@ def _basic_index(draw, shape):
 
 @st.composite
 def programs(draw, n_inputs=(1, 2), max_len=8, families=None, out='any', K=4, in_rank=(0, 1, 2), max_side=3,
-             allow_set_broadcast=True, allow_ndim_dot=False, min_len=1, first=None, allow_ones=True, raw_vectors=True):
+             allow_set_broadcast=True, allow_ndim_dot=False, min_len=1, first=None, allow_ones=True, raw_vectors=True, poly=False):
     """draw (inputs' probe points, program).  Returns dict(pts=[array (K,)+shape ...], prog=[...], out=reg)."""
     fams = list(families or FAMILIES_ALL)
     nin = draw(st.integers(n_inputs[0], n_inputs[1]))
@@ -495,6 +497,7 @@ def programs(draw, n_inputs=(1, 2), max_len=8, families=None, out='any', K=4, in
         pts.append(p)
     S = GenState(pts)
     S.raw_vectors = raw_vectors
+    S.poly = poly      # restrict to the polynomial instruction subset (exact analytic derivatives exist)
     L = draw(st.integers(min_len, max_len))
     if first is not None:
         _emit_family(draw, S, first, allow_set_broadcast, allow_ndim_dot, allow_ones)
@@ -576,12 +579,13 @@ def _real(S):
 
 def _emit_family(draw, S, fam, allow_set_broadcast=True, allow_ndim_dot=False, allow_ones=True):
     raw_vectors = getattr(S, 'raw_vectors', True)
+    poly = getattr(S, 'poly', False)
     real = _real(S)
     if fam in ('un', 'special'):
         a = _pick(draw, S, real)
         if a is None:
             return False
-        name = draw(st.sampled_from(UN_CHEAP if fam == 'un' else UN_SPECIAL))
+        name = draw(st.sampled_from(['square', 'negative', 'square'] if poly else (UN_CHEAP if fam == 'un' else UN_SPECIAL)))
         return S.try_emit(['un', name, a])
     if fam == 'unp':
         a = _pick(draw, S, real)
@@ -598,7 +602,7 @@ def _emit_family(draw, S, fam, allow_set_broadcast=True, allow_ndim_dot=False, a
         return S.try_emit(['unp', which, params, a])
     if fam == 'bin':
         a = _pick(draw, S, lambda r: True)
-        opn = draw(st.sampled_from(['add', 'sub', 'mul', 'mul', 'div']))
+        opn = draw(st.sampled_from(['add', 'sub', 'mul', 'mul'] + ([] if poly else ['div'])))
 
         def compat(r):
             try:
@@ -615,9 +619,11 @@ def _emit_family(draw, S, fam, allow_set_broadcast=True, allow_ndim_dot=False, a
         opn = draw(st.sampled_from(['add', 'sub', 'mul', 'div']))
         c = consts(draw, S.shape(a))
         side = draw(st.sampled_from(['l', 'r']))
+        if poly and opn == 'div':
+            side = 'r'
         return S.try_emit(['binc', opn, a, c, side])
     if fam == 'pow':
-        r = draw(st.sampled_from([2, 3, -1, -2, -3, 0.5, 1.5, -0.5, 2.0, 0, 1, 4]))
+        r = draw(st.sampled_from([2, 3, 0, 1] if poly else [2, 3, -1, -2, -3, 0.5, 1.5, -0.5, 2.0, 0, 1, 4]))
         a = _pick(draw, S, lambda q: real(q) and all(precond(['pow', q, r], S.regs[k]) for k in range(S.K)))
         if a is None:
             # make an admissible operand: 0.5 + square(reg) is >= 0.5 everywhere
@@ -682,7 +688,7 @@ def _emit_family(draw, S, fam, allow_set_broadcast=True, allow_ndim_dot=False, a
         if not S.try_emit(['get', b, idx]):
             return False
         t = S.nreg() - 1
-        f = draw(st.sampled_from(['sin', 'cos', 'square', 'exp']))
+        f = draw(st.sampled_from(['square'] if poly else ['sin', 'cos', 'square', 'exp']))
         if not S.try_emit(['un', f, t]):
             return False
         u = S.nreg() - 1
@@ -906,6 +912,13 @@ def _finish(draw, S, out):
                 S.try_emit(['sum', last, None])
             else:
                 S.try_emit(['sum', S.nreg() - 1, None])
+        if S.ndim(S.nreg() - 1) > 0 or S.cplx(S.nreg() - 1):
+            # the reductions overflowed the magnitude bound: fall back to one entry of the last real array register
+            r = max(q for q in range(S.nreg()) if not S.cplx(q))
+            if S.ndim(r) > 0:
+                S.try_emit(['get', r, (0,) * S.ndim(r)])
+            else:
+                S.try_emit(['un', 'negative', r])
         return S.nreg() - 1
     if out == 'vector':
         if S.ndim(last) == 0:
